@@ -8,10 +8,8 @@ of the abstraction function stays inside its buffers).
 
 For the code as written this is **false**; the negation is proved below with concrete
 witnesses (each is replayed on the real `ArrayData::try_new` by the harness on every run):
-  * `validate_accepts_malformed_union`            – type ids / dense offsets never checked
   * `validate_accepts_malformed_struct_offset`    – child length compared with `len`, not `offset+len`
   * `validate_accepts_malformed_fsl_offset`       – same for fixed-size lists
-  * `validate_accepts_ree_len_beyond_run_ends`    – `check_run_ends` uses the child's len/offset
   * `validate_accepts_null_in_nonnullable_child`  – `NullBuffer::contains` ignores the parent offset
 The `…_partial` theorems prove the property for everything outside these gaps.
 -/
@@ -45,11 +43,10 @@ def wNonNull : ArrayData :=
   ⟨.struct (.cons 0 (.prim 4) false .nil), 2, 1, some ⟨[0xfd], 1, 2, 1⟩, [],
    [⟨.prim 4, 3, 0, some ⟨[0x03], 0, 3, 1⟩, [List.replicate 12 0], []⟩]⟩
 
-/-- **The property fails for unions.**  `ArrayData::try_new` / `validate_full` accept a dense
-union whose type id `5` is not declared and whose offsets `100`, `7` are outside the children. -/
-theorem validate_accepts_malformed_union :
-    ∃ d, validateModel d = .ok ∧ tryNewRec d = .ok ∧ ¬ WellFormed d :=
-  ⟨wUnion, by decide, by decide, by decide⟩
+/-- Undeclared type ids and out-of-range dense offsets are rejected (regression witness of a
+former defect: `validate_values` had a TODO for unions). -/
+theorem validate_rejects_malformed_union : validateModel wUnion = .err ∧ ¬ WellFormed wUnion :=
+  ⟨by decide, by decide⟩
 
 /-- **The property fails for sliced structs**: child length 3 < offset + len = 5 is accepted. -/
 theorem validate_accepts_malformed_struct_offset :
@@ -61,11 +58,10 @@ theorem validate_accepts_malformed_fsl_offset :
     ∃ d, validateModel d = .ok ∧ tryNewRec d = .ok ∧ ¬ WellFormed d :=
   ⟨wFsl, by decide, by decide, by decide⟩
 
-/-- **The property fails for run-end encoded arrays**: logical length 100 with last run end 2 is
-accepted (`check_run_ends` compares the last run end with the run-ends child's own length). -/
-theorem validate_accepts_ree_len_beyond_run_ends :
-    ∃ d, validateModel d = .ok ∧ tryNewRec d = .ok ∧ ¬ WellFormed d :=
-  ⟨wRee, by decide, by decide, by decide⟩
+/-- Run ends must cover the logical range: logical length 100 with last run end 2 is rejected
+(regression witness of a former defect: `check_run_ends` used the child's own length). -/
+theorem validate_rejects_ree_len_beyond_run_ends : validateModel wRee = .err ∧ ¬ WellFormed wRee :=
+  ⟨by decide, by decide⟩
 
 /-- **The non-nullable-child check ignores the parent offset**: a null in a non-nullable struct
 child under a *valid* parent slot is accepted when the struct has a non-zero offset. -/
@@ -651,12 +647,9 @@ def wUnionChildType : ArrayData :=
   ⟨.union true (.cons 1 (.utf8 false) true (.cons 5 (.prim 4) true .nil)), 3, 0, none,
    [[1, 5, 1], [0,0,0,0, 1,0,0,0, 1,0,0,0]], [i32zeros 2, i32zeros 2]⟩
 
-/-- **`UnionArray::try_new` accepts children of the wrong type** (the constructor never compares
-the child data types with the `UnionFields`): the model of the constructor accepts a layout
-that is not well-formed. -/
-theorem typedUnion_accepts_wrong_child_type :
-    ∃ d, typedModel "union" d = .ok ∧ ¬ WellFormed d :=
-  ⟨wUnionChildType, by decide, by decide⟩
+/-- `UnionArray::try_new` rejects a child whose data type differs from the declared field
+(regression witness of a former defect). -/
+theorem typedUnion_rejects_wrong_child_type : typedModel "union" wUnionChildType = .err := by decide
 
 /-- the positive part for `ArrayData::try_new` (bottom-up) itself -/
 theorem tryNew_sound_tree_partial (d : ArrayData) (h : tryNewRec d = .ok) (hc : Covered (buildTree d)) :
